@@ -220,7 +220,7 @@ func VerifC17_q_shouldCleanupIffDead() {
 	}
 }
 
-// BOUND: three containers with arbitrary runtime answers; directory contents: one state file per container in each of two gc dirs, one ip file per container in one ip dir, plus a sub-directory, a non-IP file and an empty ip file (no container id yet) sorted right after the first container's; one GC round of cleanupGCDirs and cleanupIP; both runtimes
+// BOUND: three containers with arbitrary runtime answers; directory contents: one state file per container in each of two gc dirs, one ip file per container in one ip dir, plus a sub-directory, three non-IP files (one sorting before, one between, one after the reservations) and an empty ip file (no container id yet) sorted right after the first container's; one GC round of cleanupGCDirs and cleanupIP; both runtimes
 func VerifC17_q_collectOnlyDead() {
 	containerd := nondetBool()
 	ids := []string{"c1", "c2", "c3"}
@@ -244,6 +244,10 @@ func VerifC17_q_collectOnlyDead() {
 		ioutil.WriteFile(filepath.Join(gcDirs[1], id), []byte("{}"), 0o644)
 		ioutil.WriteFile(filepath.Join(ipDir, fmt.Sprintf("172.16.0.%d", i+2)), []byte(id+"\neth0"), 0o644)
 	}
+	// non-container files that sort before the reservations (names that are not addresses): never touched, and they
+	// do not end the scan of the directory
+	ioutil.WriteFile(filepath.Join(ipDir, ".gitkeep"), nil, 0o644)
+	ioutil.WriteFile(filepath.Join(ipDir, "172.16.0.README"), []byte("c1"), 0o644)
 	// a reservation host-local is just writing (created, content not yet written): it sorts right after c1's file
 	ioutil.WriteFile(filepath.Join(ipDir, "172.16.0.20"), nil, 0o644)
 	var cleaned []string
@@ -271,6 +275,7 @@ func VerifC17_q_collectOnlyDead() {
 		verifAssert("C17/port-cleaned-iff-dead", portCleaned == dead, "port mapping cleaned for a live container or not cleaned for a dead one: "+id)
 	}
 	verifAssert("C17/foreign-files-kept", exists(filepath.Join(ipDir, "last_reserved_ip")), "a non-container file was removed")
+	verifAssert("C17/foreign-files-kept", exists(filepath.Join(ipDir, ".gitkeep")) && exists(filepath.Join(ipDir, "172.16.0.README")), "a non-container file was removed")
 	verifAssert("C17/empty-reservation-kept", exists(filepath.Join(ipDir, "172.16.0.20")), "an ip file without a container id (a reservation being written) was removed")
 	_, derr := ioutil.ReadDir(filepath.Join(ipDir, "subdir"))
 	verifAssert("C17/dirs-kept", derr == nil, "a directory was removed")
